@@ -5,16 +5,20 @@ import hirq, anchors, absx, peg, cone, engine, unesc, sem
 from shapes import *
 
 EXPLANATION = ("P1 the PEG extracted from the nom combinator calls of src/filter.rs (resolved callees; let-chains, alt, delimited, preceded, "
-               "many0/1, opt, recognize, verify, map, map_res, fold_many0, tag, take_while(1), digit1, be_u8) equals the reference PEG of "
-               "RFC 4515 plus the documented extensions (bare item; empty (&) and (|)); parse() accepts only with an empty remainder; every "
-               "nom primitive is the `complete` variant; P2 byte classes evaluated exhaustively over all 256 bytes (value characters = all "
-               "but NUL ( ) *; alnum-hyphen; alphabetic first character) and the leading-zero rule of `number` over its partition; P3 the "
-               "semantic actions, abstractly evaluated on every path, build RFC 4511 Filter shapes: and [0], or [1], not [2] explicit, "
-               "equalityMatch [3], substrings [4] {initial [0], any [1], final [2]}, >= [5], <= [6], present [7] primitive, ~= [8], "
-               "extensibleMatch [9] {matchingRule [1], type [2], matchValue [3], dnAttributes [4]} with the parser output feeding each slot; "
-               "P4 the equality / presence / substring discrimination conditions and the adjacent-asterisk rejection predicate; P5 the "
+               "many0/1, opt, recognize, verify, map, map_res, fold_many0, tag, take_while(1), digit1, be_u8; a parser written by hand is read off its "
+               "enumerated paths: the remainder it returns is a chain of parser applications / longest-prefix splits) equals the reference PEG of "
+               "RFC 4515 plus the documented extensions (bare item; empty (&) and (|)), at language level when the function boundaries differ - an "
+               "acceptance test that only reads values fixed earlier in the rule (the operator matched) is decided, not kept opaque; parse() accepts only "
+               "with an empty remainder; every nom primitive is the `complete` variant; P2 byte classes evaluated exhaustively over all 256 bytes (value "
+               "characters = all but NUL ( ) *; alnum-hyphen; alphabetic first character) and the leading-zero rule of `number` over its partition; P3 the "
+               "semantic actions build RFC 4511 Filter shapes: and [0], or [1], not [2] explicit (abstractly evaluated on every path); the attribute-value "
+               "items - found by the role of each parse step, not by function name - by exhaustive literal evaluation of the item parser over operator x "
+               "value empty/not x every admissible `*` list of 0..4 components: equalityMatch [3], substrings [4] {initial [0], any [1], final [2]}, >= [5], "
+               "<= [6], present [7] primitive, ~= [8]; extensibleMatch [9] {matchingRule [1], type [2], matchValue [3], dnAttributes [4]} with the parser "
+               "output feeding each slot; P4 the equality / presence / substring discrimination (same evaluation), no `*` list after an ordering / approx "
+               "operator, and the adjacent-asterisk test evaluated on all 121 lists of 0..4 components over {empty, x, *}; P5 the "
                "unescaper's transition table over {backslash, hex digit, other} x {WantFirst, WantSecond, Value, Error} and acceptance only "
-               "in Value, and the unescaper evaluated exhaustively on literals over all 5120 (state, byte) pairs (hex arithmetic included); P6 no panic source reachable from parse / parse_matched_values that is not reviewed infeasible. Not decided: "
+               "in Value, the value fold (fold_many0 closures or a loop over the consumed prefix: base case, generic step, acceptance) and the unescaper evaluated exhaustively on literals over all 5120 (state, byte) pairs (hex arithmetic included); P6 no panic source reachable from parse / parse_matched_values that is not reviewed infeasible or discharged by a guard re-read on every run. Not decided: "
                "'printing the BER reproduces the input' taken whole.")
 TRUSTED = ['nom combinator semantics', 'RFC 4515 grammar transcribed below', 'rules/triage/C08.tsv']
 UNDECIDED = ['round trip through a canonical printer taken whole']
@@ -264,25 +268,15 @@ def run(ctx):
             mism = compare(to_shape(o.val), ref, o.st.pc, {'elems': [], 'pc': o.st.pc})
             ctx.add('P3.shape', name, loc(cl), not mism, '; '.join(mism)[:300] or 'matches RFC 4511')
         ctx.add('P3.shape.paths', name, loc(B.root), len(outs) == 1, 'expected one path through the action')
-    # non_eq
-    B = hirq.Body(f, f.hir[FP + 'non_eq'])
-    table = {b'>=': 5, b'<=': 6, b'~=': 8}      # RFC 4511: greaterOrEqual [5], lessOrEqual [6], approxMatch [8]
-    seen = set()
-    for o in absx.Interp(f, B, inline=inl).run():
-        if not (o.kind in ('val', 'ret') and o.val[0] == 'ctor' and o.val[1] == 'Ok'):
-            continue
-        tag = o.val[2][0][1][1]
-        ops = [a[3][1] for a, t in o.st.pc if t and a[0] == 'bin' and a[1] == 'Eq' and a[3][0] == 'lit' and isinstance(a[3][1], bytes)]
-        op = ops[-1] if ops else None
-        seen.add(op)
-        ref = C('C', table.get(op, -1), OCT(out_of('attributedescription')), OCT(out_of('unescaped')))
-        mism = compare(to_shape(tag), ref, o.st.pc, {'elems': [], 'pc': o.st.pc})
-        ctx.add('P3.shape', 'non_eq|%s' % (op.decode() if op else '?'), loc(B.root), not mism, '; '.join(mism)[:300] or 'matches RFC 4511')
-    ctx.add('P3.non_eq.operators', 'table', loc(B.root), seen == set(table), 'operators handled: %s' % sorted(map(str, seen)))
-    # eq
-    check_eq(ctx, f, inl)
+    # the attribute-value items: equality / presence / substrings / ordering / approximate match.  Found by role (whichever
+    # functions the grammar's item level is drawn into) and decided by exhaustive literal evaluation, see check_simple_items
+    check_simple_items(ctx, f, X, rules, classmap, inl)
     # extensible
     for name, has_attr in (('attr_dn_mrule', True), ('dn_mrule', False)):
+        if FP + name not in f.hir:
+            # (still anchored by name: the grammar comparison P1 says what became of the rule; here the clause is reported as undecided)
+            ctx.fail('P3.shape', name, '', 'the extensible-match parser `%s` does not exist as a function: its semantic action (extensibleMatch [9] slots) could not be located and is not decided' % name)
+            continue
         B = hirq.Body(f, f.hir[FP + name])
         n = 0
         for o in absx.Interp(f, B, inline=inl).run():
@@ -336,96 +330,212 @@ def run(ctx):
     ctx.floor('P6', 'bodies in the filter-parser cone', len(parent), 20)
 
 
-def check_eq(ctx, f, inl):
-    B = hirq.Body(f, f.hir[FP + 'eq'])
-    initial = out_of('unescaped')
-    midfinal = out_of_comb('many0', "b'*'", 'unescaped')
-    def atom_true(o, pred):
-        for a, t in o.st.pc:
-            if pred(a):
-                return t
+OPS = {b'=': None, b'>=': 5, b'<=': 6, b'~=': 8}      # RFC 4511: greaterOrEqual [5], lessOrEqual [6], approxMatch [8]; '=' is equality [3] / substrings [4] / present [7]
+
+def item_roles(chain):
+    """The parse results an attribute-value item is built from, found by *what each step of the function's let-chain parses* (not
+    by the names of functions or locals): the attribute description, the operator (a literal or an alternative of literals out
+    of = >= <= ~=), the value up to the first asterisk, and - optionally - the list of `*`-separated further components.
+    None if the chain is not of that kind (some other parser function)."""
+    roles = {}
+    def put(k, e):
+        if k in roles:
+            raise KeyError(k)
+        roles[k] = e
+    def mentions(g, what):
+        if g == what:
+            return True
+        if g[0] in ('seq', 'alt'):
+            return any(mentions(x, what) for x in g[1])
+        if g[0] in ('star', 'plus', 'opt', 'check', 'peek'):
+            return mentions(g[1], what)
+        if g[0] == 'bound':
+            return mentions(g[2], what)
+        return False
+    try:
+        for e in chain:
+            g = e['g']
+            lits = [g] if g[0] == 'lit' else g[1] if (g[0] == 'alt' and all(x[0] == 'lit' for x in g[1])) else None
+            if g == ('ref', FP + 'attributedescription'):
+                put('attr', e)
+            elif lits is not None and all(bytes(x[1]) in OPS for x in lits):
+                put('op', dict(e, ops=[bytes(x[1]) for x in lits]))
+            elif g == ('ref', FP + 'unescaped'):
+                put('initial', e)
+            elif (g[0] == 'star' or (g[0] == 'check' and g[1][0] == 'star')) and mentions(g, ('lit', b'*')) and mentions(g, ('ref', FP + 'unescaped')):
+                put('list', e)
+            else:
+                return None
+    except KeyError:
         return None
-    n = 0
-    kinds = set()
-    for o in absx.Interp(f, B, inline=inl, for_once=True).run():
-        if not (o.kind in ('val', 'ret') and o.val[0] == 'ctor' and o.val[1] == 'Ok'):
-            continue
-        n += 1
-        tag = o.val[2][0][1][1]
-        is_empty_of = lambda pred: (lambda a: a[0] == 'call' and a[1].endswith('::is_empty') and pred(a[2][0], {}))
-        mf_empty = atom_true(o, is_empty_of(midfinal))
-        ini_empty = atom_true(o, is_empty_of(initial))
-        len1 = atom_true(o, lambda a: a[0] == 'bin' and a[1] == 'Eq' and a[3] == ('lit', 1) and a[2][0] == 'call' and a[2][1].endswith('::len') and midfinal(a[2][2][0], {}))
-        first_empty = atom_true(o, lambda a: a[0] == 'call' and a[1].endswith('::is_empty') and a[2][0][0] == 'index' and midfinal(a[2][0][1], {}) and a[2][0][2] == ('lit', 0))
-        if mf_empty is True:
-            kind = 'equality'
-            ref = C('C', 3, OCT(out_of('attributedescription')), OCT(initial))
-        elif ini_empty is True and len1 is True and first_empty is True:
-            kind = 'present'
-            ref = P('OCT', 'C', 7, out_of('attributedescription'))
-        else:
-            kind = 'substrings'
-            el_empty = atom_true(o, lambda a: a[0] == 'call' and a[1].endswith('::is_empty') and absx.leaves(a[2][0], lambda x: x[0] == 'elem'))
-            not_last = atom_true(o, lambda a: a[0] == 'bin' and a[1] == 'Eq' and a[2][0] == 'bin' and a[2][1] == 'Add' and a[2][3] == ('lit', 1)
-                                 and absx.leaves(a[2][2], lambda x: x[0] == 'elem') and a[3][0] == 'call' and a[3][1].endswith('::len'))
-            subs = []
-            if ini_empty is False:
-                subs.append(P('OCT', 'C', 0, initial))
-            elif ini_empty is None:
-                ctx.fail('P4.initial-condition', 'substrings', loc(B.root), 'the initial substring is not conditioned on being non-empty'); continue
-            if el_empty is False:
-                # `i + 1 != n`  <=>  not (i + 1 == n): any [1] while not last, final [2] for the last
-                tagno = 1 if not_last is False else 2
-                if not_last is None:
-                    ctx.fail('P4.any-final-selector', 'substrings', loc(B.root), 'any/final is not selected by the element\'s position'); continue
-                subs.append(MANY(None, P('OCT', 'C', tagno, lambda t, env: t[0] == 'field' and t[2] == '1' and bool(absx.leaves(t, lambda x: x[0] == 'elem')))))
-                kind += '|any' if tagno == 1 else '|final'
-            ref = C('C', 4, OCT(out_of('attributedescription')), SEQ(*subs))
-        kinds.add(kind)
-        mism = compare(to_shape(tag), ref, o.st.pc, {'elems': [], 'pc': o.st.pc})
-        ctx.add('P3.shape', 'eq|%s|initial=%s' % (kind, 'empty' if ini_empty else 'present' if ini_empty is False else '-'), loc(B.root), not mism, '; '.join(mism)[:300] or 'matches RFC 4511')
+    return roles if all(k in roles for k in ('attr', 'op', 'initial')) else None
+
+ATTR = ('param', 'attr')
+
+def expected_item(op, initial, lst):
+    """(kind, reference shape) of the RFC 4511 Filter that the item  attr op initial *lst[0] *lst[1] ...  denotes"""
+    is_attr = lambda t, env: strip(t) == ATTR
+    if op != b'=':
+        return 'ordering' if op != b'~=' else 'approx', C('C', OPS[op], OCT(is_attr), OCT(lit(initial)))
+    if not lst:
+        return 'equality', C('C', 3, OCT(is_attr), OCT(lit(initial)))
+    if not initial and lst == (b'',):
+        return 'present', P('OCT', 'C', 7, is_attr)
+    subs = [P('OCT', 'C', 0, lit(initial))] if initial else []
+    subs += [P('OCT', 'C', 1, lit(x)) for x in lst[:-1]]
+    kind = 'substrings' + ('|any' if len(lst) > 1 else '')
+    if lst[-1]:
+        subs.append(P('OCT', 'C', 2, lit(lst[-1])))
+        kind += '|final'
+    return kind, C('C', 4, OCT(is_attr), SEQ(*subs))
+
+def check_simple_items(ctx, f, X, rules, classmap, inl):
+    """P3 / P4 for the items  attr=value, attr=*, attr=ini*any*fin, attr>=value, attr<=value, attr~=value.
+
+    Decided by *exhaustive literal evaluation* of the item parser's own code (absx on the typed HIR; nothing of the library runs):
+    the results of the parsers it applies are replaced, at their application sites, by every combination of
+        operator   each literal the operator step can match,
+        value      empty / non-empty,
+        `*` list   every list of 0..4 components that the list's acceptance test lets through (components before the last
+                   non-empty and pairwise distinct, the last one empty or not),
+    and the Tag built on the single resulting path is compared with the RFC 4511 Filter the item denotes.  The code decides on a
+    list only through its length, the emptiness of a component and a component's position relative to the end; lengths 0..4
+    cover {no asterisk, one, two (an `any` component), three and four (several `any` components in order)} x {last empty, not}, and the
+    distinct literals tie every output octet string to the component it must come from.  So the discrimination equality /
+    presence / substrings, the initial / any / final tagging and the operator table are decided however they are spelled (a
+    loop with `break`, `pop` + `extend(map)`, a `match`, one merged function or two).  A combination the evaluator cannot
+    decide (more than one path, an unknown construct) is a violation: the rule fails closed.
+
+    Which lists can reach the code at all is part of the claim: a `*` list after an ordering / approximate operator must be
+    impossible (P4.operator-discrimination): decided on the grammar of the list step under the operator chosen (peg.language)."""
+    ext_rec = peg.recursive_rules(rules, lambda n: n.split('::')[-1])
+    look_ext = lambda n: rules.get(FP + n)
+    items = [(p, item_roles(ch)) for p, ch in sorted(X.chains.items())]
+    items = [(p, r) for p, r in items if r is not None]
+    seen_ops, kinds, n_rows = set(), set(), 0
+    NONEMPTY = (b'a', b'b', b'c')
+    for p, roles in items:
+        name = p.split('::')[-1]
+        B = hirq.Body(f, f.hir[p])
+        ctx.analysed['bodies'].add(p)
+        steps = [roles[k] for k in ('attr', 'op', 'initial', 'list') if k in roles]
+        for op in roles['op']['ops']:
+            seen_ops.add(op)
+            env = {roles['op']['bind']: ('lit', op)} if roles['op']['bind'] is not None else {}
+            # can a non-empty `*` list follow this operator?
+            lists_possible = False
+            if 'list' in roles:
+                try:
+                    L = peg.language(f, roles['list']['g'], look_ext, ext_rec, classmap, env=env)
+                    lists_possible = bool(L - {()})
+                except peg.NoNormalForm:
+                    lists_possible = True
+            if op != b'=':
+                ctx.add('P4.operator-discrimination', '%s|%s' % (name, op.decode()), loc(B.root), not lists_possible,
+                        'an item with the operator %s can take the `*` list of the substring syntax: an ordering / approximate-match item must not reach the '
+                        'substring / presence branches (RFC 4515: only `=` is followed by  [initial] any final ; an unescaped `*` after %s must be rejected) - '
+                        'e.g. (a%s*) would be compiled as %s' % (op.decode(), op.decode(), op.decode(), describe_built(f, B, roles, steps, op, b'', (b'',), inl)))
+            lists = [()]
+            if lists_possible:
+                lists += [NONEMPTY[:n] + (last,) for n in range(0, 4) for last in (b'', b'z')]
+            for initial in (b'', b'i'):
+                for lst in lists:
+                    if op != b'=' and lst:
+                        continue        # reported above; what would be built is not an RFC 4511 question
+                    n_rows += 1
+                    kind, ref = expected_item(op, initial, lst)
+                    inst = '%s|%s|initial=%s|list=%s' % (op.decode(), kind, 'present' if initial else 'empty', ','.join(x.decode() or "''" for x in lst) or '-')
+                    tags, why = build_item(f, B, roles, steps, op, initial, lst, inl)
+                    if tags is None:
+                        ctx.fail('P3.shape', inst, loc(B.root), 'the item built for this combination could not be decided by literal evaluation of %s(): %s' % (name, why))
+                        continue
+                    o, tag = tags
+                    mism = compare(to_shape(tag), ref, o.st.pc, {'elems': [], 'pc': o.st.pc})
+                    ctx.add('P3.shape', inst, loc(B.root), not mism, ('%s() builds %s: ' % (name, fmt_shape(to_shape(tag))[:160])) + ('; '.join(mism)[:300] or 'matches RFC 4511'))
+                    if not mism:
+                        kinds.add(kind.split('|')[0]); kinds.update(kind.split('|')[1:] and ['substrings|' + k for k in kind.split('|')[1:]])
+        # the acceptance test of the `*` list: adjacent asterisks
+        if 'list' in roles:
+            check_adjacent(ctx, f, B, roles, name)
+    anchor = loc(f.hir[items[0][0]]['body']) if items else ''
+    ctx.add('P3.simple-items.operators', 'table', anchor, seen_ops == set(OPS), 'operators handled by the attribute-value item parsers: %s (expected = >= <= ~=)' % sorted(x.decode() for x in seen_ops))
     for need in ('equality', 'present', 'substrings', 'substrings|any', 'substrings|final'):
-        ctx.add('P4.discrimination', need, loc(B.root), need in kinds, 'no path of eq() builds a filter of kind ' + need)
-    # adjacent asterisks, on the enumerated paths: the filter is rejected exactly on the paths where *some* element of the
-    # substring list satisfies "empty and not the last one" (as a fold over `||` or as any(); see absx), accepted otherwise
-    # (the test lives in the semantic action of the `*`-list parser: the closure that receives the parsed list)
-    I4 = absx.Interp(f, B, inline=inl, for_once=True, combinators=True)
-    acts = [n for n, c in walk(B.root) if n['k'] == 'Closure' and len(n['params']) == 1 and hirq.strip_refs(n['params'][0].get('ty') or '') == 'alloc::vec::Vec<alloc::vec::Vec<u8>>']
-    outs = []
-    LIST = ('param', 'list')
-    for a_ in acts:
-        outs += [o for o in I4.apply_closure(('closure', a_['def']), [LIST], absx.St({}), a_) if o.kind in ('val', 'ret')]
-    midfinal = lambda t, env: t == LIST
-    def pred_ok(conds):
-        """every way the predicate holds is: the element is empty, and its position is not the last (one of the spellings)"""
-        if not conds:
-            return False
-        for cnd in conds:
-            empties = [(a, t) for a, t in cnd if a[0] == 'call' and a[1].endswith('::is_empty') and absx.leaves(a[2][0], lambda x: x[0] == 'elem')]
-            pos = [(a, t) for a, t in cnd if a[0] == 'bin' and absx.leaves(a, lambda x: x[0] == 'elem') and absx.leaves(a, lambda x: x[0] == 'call' and x[1].endswith('::len'))]
-            if len(empties) != 1 or empties[0][1] is not True or len(pos) != 1 or len(cnd) != 2:
-                return False
-            a, t = pos[0]
-            idx = lambda x: bool(absx.leaves(x, lambda y: y[0] == 'elem')) and not absx.leaves(x, lambda y: y[0] == 'call')
-            ln = lambda x: x[0] == 'call' and x[1].endswith('::len')
-            last = lambda x: (x[0] == 'bin' and x[1] == 'Add' and ln(x[2]) and x[3] == ('lit', -1)) or (x[0] == 'call' and x[1].endswith('wrapping_sub') and ln(x[2][0]) and x[2][1] == ('lit', 1)) \
-                or (x[0] == 'call' and x[1].endswith('saturating_sub') and ln(x[2][0]) and x[2][1] == ('lit', 1))
-            nxt = lambda x: x[0] == 'bin' and x[1] == 'Add' and idx(x[2]) and x[3] == ('lit', 1)
-            forms = [
-                a[1] == 'Eq' and nxt(a[2]) and ln(a[3]) and t is False,        # i + 1 != len
-                a[1] == 'Eq' and idx(a[2]) and last(a[3]) and t is False,      # i != len - 1
-                a[1] == 'Lt' and nxt(a[2]) and ln(a[3]) and t is True,         # i + 1 < len
-                a[1] == 'Lt' and idx(a[2]) and last(a[3]) and t is True,       # i < len - 1
-            ]
-            if not any(forms):
-                return False
-        return True
-    anys = [(o, t, conds) for o in outs for t, src, el, conds in sem.search_atoms(o.st.pc, 'any')]
-    ok = bool(anys) and all(pred_ok(conds) for o, t, conds in anys) and all(midfinal(src, {}) or absx.leaves(src, lambda x: midfinal(x, {})) for o in outs for t, src, el, conds in sem.search_atoms(o.st.pc, 'any'))
-    ctx.add('P4.adjacent-asterisks', 'eq', loc(B.root), ok, 'the substring list must be rejected exactly when an element other than the last is empty (`ve.is_empty() && n + 1 != v.len()` for some element)')
-    okf = bool(anys) and all((sem.is_err_result(o.val)) == t for o, t, conds in anys) and any(t for o, t, c in anys) and any(not t for o, t, c in anys) \
-        and all(t or o.val == ('ctor', 'Ok', (LIST,)) for o, t, c in anys)
-    ctx.add('P4.adjacent-asterisks.rejects', 'eq', loc(B.root), okf, 'a list with an empty non-final element must be rejected, any other accepted')
+        ctx.add('P4.discrimination', need, anchor, need in kinds, 'no combination of parse results makes the item parser build a correct filter of kind ' + need)
+    ctx.add('P4.adjacent-asterisks.present', 'list test', anchor, any('list' in r for p, r in items), 'no item parser reads a `*` list')
+    ctx.floor('P3', 'attribute-value item combinations evaluated', n_rows, 24)
+
+def build_item(f, B, roles, steps, op, initial, lst, inl):
+    """((path, Tag term), None) of the single accepting path of the item parser when its parsers yield the given results,
+    or (None, why)."""
+    values = {'attr': ATTR, 'op': ('lit', op), 'initial': ('lit', initial), 'list': ('vec', tuple(('lit', x) for x in lst))}
+    by_app = {id(roles[k]['app']): (('param', 'rest#%d' % i), values[k]) for i, k in enumerate(k for k in ('attr', 'op', 'initial', 'list') if k in roles)}
+    def parsed(I, cal, args, node, st):
+        hit = by_app.get(id(node))
+        if hit is not None:
+            return [absx.Out('val', ('ctor', 'Ok', (('tuple', hit),)), st)]
+        return None
+    I = absx.Interp(f, B, inline=inl, summaries=[parsed])
+    I.exact_seqs = True
+    try:
+        outs = I.run()
+    except absx.TooManyPaths:
+        return None, 'too many paths'
+    if len(outs) != 1:
+        return None, '%d paths (%s)' % (len(outs), ', '.join(sorted({'%s %s' % (o.kind, absx.fmt(o.val)[:40]) for o in outs}))[:200])
+    o = outs[0]
+    v = o.val
+    if not (o.kind in ('val', 'ret') and v[0] == 'ctor' and v[1] == 'Ok' and v[2][0][0] == 'tuple' and len(v[2][0][1]) == 2):
+        return None, 'the path ends in %s %s' % (o.kind, absx.fmt(v)[:80])
+    return (o, v[2][0][1][1]), None
+
+def describe_built(f, B, roles, steps, op, initial, lst, inl):
+    tags, why = build_item(f, B, roles, steps, op, initial, lst, inl)
+    return fmt_shape(to_shape(tags[1]))[:120] if tags is not None else 'something undecided (%s)' % why
+
+def check_adjacent(ctx, f, B, roles, name):
+    """P4.adjacent-asterisks: the acceptance test of the `*` list rejects exactly the lists with an empty component other than the
+    last (`a=x**y`), and hands an accepted list on unchanged.  The test is a function of the list alone: it is evaluated on
+    literals for every list of 0..4 components over {empty, "x", "*"} (121 lists; two different non-empty contents, so a test that
+    looked at more than emptiness shows up), however it is written (fold / any / windows / split_last ...)."""
+    g = roles['list']['g']
+    node = g[3] if (g[0] == 'check' and len(g) > 3) else None
+    if node is None or node.get('k') != 'Closure':
+        ctx.fail('P4.adjacent-asterisks', name, loc(B.root), 'the `*` list is accepted without a test (or the test is not a closure the rules can evaluate): adjacent asterisks are not rejected')
+        return
+    I = absx.Interp(f, B)
+    I.exact_seqs = True
+    import itertools
+    wrong, changed, n = [], [], 0
+    for ln in range(0, 5):
+        for combo in itertools.product((b'', b'x', b'*'), repeat=ln):
+            n += 1
+            LIST = ('vec', tuple(('lit', x) for x in combo))
+            try:
+                outs = I.apply_closure(('closure', node['def']), [LIST], absx.St({}), node)
+            except absx.TooManyPaths:
+                outs = []
+            exp_reject = any(x == b'' for x in combo[:-1])
+            got = set()
+            for o in outs:
+                v = o.val
+                if o.kind not in ('val', 'ret'):
+                    got.add('?' + o.kind)
+                elif g[2] == 'verify':
+                    got.add('accept' if v == absx.TRUE else 'reject' if v == absx.FALSE else '?')
+                elif v[0] == 'ctor' and v[1] == 'Ok':
+                    got.add('accept')
+                    if v[2] != (LIST,):
+                        changed.append(combo)
+                else:
+                    got.add('reject' if sem.is_err_result(v) else '?')
+            if got != {'reject' if exp_reject else 'accept'}:
+                wrong.append(('*'.join(x.decode() for x in combo) if combo else '<no asterisk>', sorted(got) or ['no path']))
+    show = lambda w: ['a=i*%s: %s' % (c, '/'.join(g_)) for c, g_ in w[:4]]
+    ctx.add('P4.adjacent-asterisks', name, loc(node), not wrong,
+            'the substring list must be rejected exactly when a component other than the last is empty (adjacent asterisks); evaluated on %d literal lists, the '
+            'test of %s() decides differently (or not at all) on %d: %s' % (n, name, len(wrong), show(wrong)))
+    ctx.add('P4.adjacent-asterisks.rejects', name, loc(node), not changed and not wrong, 'an accepted list must be handed on unchanged (changed: %s)' % changed[:3])
+
 
 def check_unescaper(ctx, f):
     p = FP + 'Unescaper::feed'
@@ -468,46 +578,120 @@ def check_unescaper(ctx, f):
     # the fold in `unescaped`: start in Value, push exactly the Value payloads, accept only in Value
     U = hirq.Body(f, f.body(FP + 'unescaped'))
     ctx.analysed['bodies'].add(U.path)
-    cls_ = [n for n, c in walk(U.root) if n['k'] == 'Closure']
-    I2 = absx.Interp(f, U)
-    ok_init = ok_step = ok_acc = False
-    for c in cls_:
-        if not c['params']:
-            for o in I2.apply_closure(('closure', c['def']), [], absx.St({}), c):
-                v = o.val
-                ok_init = v[0] == 'tuple' and v[1][0] == ('ctor', 'Unescaper::Value', (('lit', 0),)) and v[1][1] == ('vec', ())
-        elif len(c['params']) == 2:
-            res = I2.apply_closure(('closure', c['def']), [('tuple', (('param', 'u'), ('vec', ()))), ('param', 'c')], absx.St({}), c)
-            good = 0
-            for o in res:
-                v = o.val
-                if o.kind not in ('val', 'ret') or v[0] != 'tuple':
-                    continue
-                st_t, vec = v[1]
-                fed = st_t[0] == 'call' and st_t[1] == FP + 'Unescaper::feed' and st_t[2] == (('param', 'u'), ('param', 'c'))
-                is_val = next((t for a, t in o.st.pc if a[0] == 'is' and a[2] == 'Unescaper::Value' and a[1] == st_t), None)
-                if fed and is_val is True and vec == ('vec', (('variant', st_t, 'Unescaper::Value', 0),)):
-                    good += 1
-                elif fed and is_val is False and vec == ('vec', ()):
-                    good += 1
-                else:
-                    good -= 10
-            ok_step = good == 2
-        elif len(c['params']) == 1:
-            res = I2.apply_closure(('closure', c['def']), [('tuple', (('param', 'u'), ('param', 'vec')))], absx.St({}), c)
-            good = 0
-            for o in res:
-                is_val = next((t for a, t in o.st.pc if a[0] == 'is' and a[2] == 'Unescaper::Value'), None)
-                if is_val is True and o.val == ('ctor', 'Ok', (('param', 'vec'),)):
-                    good += 1
-                elif is_val is False and o.val[0] == 'ctor' and o.val[1] == 'Err':
-                    good += 1
-                else:
-                    good -= 10
-            ok_acc = good == 2
+    ok_init, ok_step, ok_acc, ok_src, form = fold_facts(f, U)
     ctx.add('P5.fold-initial-state', 'unescaped', loc(U.root), ok_init, 'the unescaper must start in Value with an empty output')
     ctx.add('P5.fold-step', 'unescaped', loc(U.root), ok_step, 'each input byte must be fed to the unescaper and exactly the Value payloads pushed to the output')
     ctx.add('P5.accept-only-in-value', 'unescaped', loc(U.root), ok_acc, 'a value ending inside an escape sequence (or after a bad one) must be rejected')
+    ctx.add('P5.fold-over-consumed-bytes', 'unescaped', loc(U.root), ok_src, 'the bytes fed to the unescaper must be exactly the bytes the parser consumes (all of them, in order); form read: %s' % form)
+
+
+UNESC_VARIANTS = ['Unescaper::WantFirst', 'Unescaper::WantSecond', 'Unescaper::Value', 'Unescaper::Error']
+
+def is_value(pc, st_t):
+    """what a path condition says about `st_t is Unescaper::Value` (a test against another variant decides it too)"""
+    return sem.variant_truth(pc, lambda t: t == st_t, 'Unescaper::Value', UNESC_VARIANTS)
+
+def fold_facts(f, U):
+    """The value computation of `unescaped` is a fold of the consumed bytes through Unescaper::feed.  Its three parts - the initial
+    (state, output), the step and the acceptance test - are decided on the enumerated paths, for either way of writing a fold:
+      (a) nom's `map_res(fold_many0(byte parser, init, step), finish)`: the three closures are applied to symbolic arguments;
+      (b) a loop over the consumed bytes with the state and the output in loop-carried locals: the body is evaluated as one
+          generic iteration from an arbitrary carried (state, output) - the inductive step -, the values the locals hold when the
+          loop is entered are the base case, and the code after the loop is the acceptance test of whatever state the last
+          iteration left (the state term is opaque, so what is decided for it holds for the initial state of an empty value too).
+    Returns (init ok, step ok, accept ok, the bytes folded are the consumed ones, name of the form)."""
+    folds = [n for n, c in walk(U.root) if n['k'] == 'Call' and callee_of(n) == 'nom::multi::fold_many0' and len(n['args']) == 3]
+    I = absx.Interp(f, U, for_once=True)
+    I.carry_vecs = True
+    FEED = FP + 'Unescaper::feed'
+    payload = lambda st_t: ('variant', st_t, 'Unescaper::Value', 0)
+    if len(folds) == 1:
+        fold = folds[0]
+        finishes = [n for n, c in walk(U.root) if n['k'] == 'Call' and callee_of(n) == 'nom::combinator::map_res' and len(n['args']) == 2 and n['args'][0] is fold]
+        init_c, step_c = fold['args'][1], fold['args'][2]
+        if len(finishes) != 1 or any(x['k'] != 'Closure' for x in (init_c, step_c, finishes[0]['args'][1])):
+            return False, False, False, False, 'fold_many0 without closures / without a map_res acceptance test'
+        fin_c = finishes[0]['args'][1]
+        outs = [o for o in I.apply_closure(('closure', init_c['def']), [], absx.St({}), init_c)]
+        ok_init = bool(outs) and all(o.kind in ('val', 'ret') and o.val[0] == 'tuple' and len(o.val[1]) == 2 and o.val[1][0][0] == 'ctor'
+                                     and o.val[1][0][1] == 'Unescaper::Value' and o.val[1][1] == ('vec', ()) for o in outs)
+        u, c, acc = ('param', 'u'), ('param', 'c'), ('param', 'vec')
+        seen = set()
+        ok_step = True
+        for o in I.apply_closure(('closure', step_c['def']), [('tuple', (u, acc)), c], absx.St({}), step_c):
+            v = o.val
+            if o.kind not in ('val', 'ret') or v[0] != 'tuple' or len(v[1]) != 2:
+                ok_step = False; continue
+            st_t, vec = v[1]
+            fed = st_t[0] == 'call' and st_t[1] == FEED and st_t[2] == (u, c)
+            isv = is_value(o.st.pc, st_t)
+            seen.add(isv)
+            ok_step = ok_step and fed and ((isv is True and vec == ('vecpush', acc, payload(st_t))) or (isv is False and vec == acc))
+        ok_step = ok_step and seen == {True, False}
+        seen = set()
+        ok_acc = True
+        for o in I.apply_closure(('closure', fin_c['def']), [('tuple', (u, acc))], absx.St({}), fin_c):
+            isv = is_value(o.st.pc, u)
+            seen.add(isv)
+            ok_acc = ok_acc and o.kind in ('val', 'ret') and ((isv is True and o.val == ('ctor', 'Ok', (acc,))) or (isv is False and sem.is_err_result(o.val)))
+        ok_acc = ok_acc and seen == {True, False}
+        # fold_many0 folds the outputs of its element parser, one per application, in input order: by nom's definition
+        return ok_init, ok_step, ok_acc, True, 'fold_many0'
+    # (b) a loop
+    try:
+        outs = I.run()
+    except absx.TooManyPaths:
+        return False, False, False, False, 'too many paths'
+    ok_init = ok_step = ok_acc = ok_src = True
+    seen = set()
+    n_final = 0
+    # the application of the byte-class parser the remainder comes from (if the prefix is cut off by a parser): only *its* failure
+    # may be propagated; every other error path must be the "not in Value" rejection decided below
+    own_app = set()
+    for o in outs:
+        v = o.val
+        if o.kind in ('val', 'ret') and v[0] == 'ctor' and v[1] == 'Ok' and v[2] and v[2][0][0] == 'tuple' and len(v[2][0][1]) == 2:
+            r = v[2][0][1][0]
+            if peg.prefix_split(r) is not None and r[1][0] == 'variant':
+                own_app.add(r[1][1])
+    for o in outs:
+        if o.kind in ('val', 'ret') and o.val[0] == 'tryerr' and o.val[1] in own_app:
+            continue                # the byte-class parser's own failure, propagated
+        carried = [e for e in o.st.ev if e[0] == 'loop-carried']
+        loops = {id(e[3]) for e in carried}
+        st_c = [e for e in carried if e[4][0] == 'ctor' and e[4][1].startswith('Unescaper::')]
+        out_c = [e for e in carried if e[4][0] == 'vec']
+        if o.kind not in ('val', 'ret') or len(loops) != 1 or len(carried) != 2 or len(st_c) != 1 or len(out_c) != 1:
+            return False, False, False, False, 'no single loop with a carried (state, output) pair on a path that ends in %s' % o.kind
+        n_final += 1
+        U0, V0 = st_c[0][2], out_c[0][2]           # the carried state and output at the head of the generic iteration
+        ok_init = ok_init and st_c[0][4][1] == 'Unescaper::Value' and out_c[0][4] == ('vec', ())
+        feeds = [a[1] for a, t in o.st.pc if a[0] == 'is' and a[1][0] == 'call' and a[1][1] == FEED]
+        feeds += [x for x in absx.leaves(o.val, lambda x: x[0] == 'call' and x[1] == FEED)]
+        F = feeds[0] if feeds else None
+        if F is None or any(x != F for x in feeds) or F[2][0] != U0 or F[2][1][0] != 'elem':
+            ok_step = False; continue
+        isv = is_value(o.st.pc, F)
+        seen.add(isv)
+        v = o.val
+        if isv is True:
+            # accepted, with the output of this iteration: what was carried in plus the payload of the new state
+            good = v[0] == 'ctor' and v[1] == 'Ok' and v[2][0][0] == 'tuple' and len(v[2][0][1]) == 2 and v[2][0][1][1] == ('vecpush', V0, payload(F))
+            ok_step = ok_step and good
+            ok_acc = ok_acc and good
+            if good:
+                rest = peg.prefix_split(v[2][0][1][0])
+                taken = peg.prefix_split(F[2][1][1])
+                ok_src = ok_src and rest is not None and taken is not None and rest[2] == 'rest' and taken[2] == 'taken' and rest[:2] == taken[:2]
+        elif isv is False:
+            # rejected; nothing was pushed for this byte (had it been, the vector would show up as a `push` event of this path)
+            pushes = [e for e in o.st.ev if e[0] == 'call' and e[1].endswith('::push')]
+            ok_step = ok_step and not pushes
+            ok_acc = ok_acc and sem.is_err_result(v)
+        else:
+            ok_step = ok_acc = False
+    both = seen == {True, False}
+    return ok_init and n_final > 0, ok_step and both, ok_acc and both, ok_src and both, 'loop over the consumed prefix'
 
 
 def run_thorough(ctx):
